@@ -24,7 +24,7 @@ func TestDebugReplay(t *testing.T) {
 		for _, o := range w.Obs {
 			fmt.Printf("final=%v finalset=%v recv=%d\nrawhdr=%v\nrawtrl=%v\nresphdr=%v\nresptrl=%v\n", o.Final, o.FinalSet, len(o.Recv), o.RawHeader, o.RawTrailer, o.RespHeader, o.RespTrailer)
 			for _, op := range append(o.Ops, o.OpsRcv...) {
-				fmt.Printf("  op %s arg=%d [%d..%d] err=%v msg=%d\n", op.Op, op.Arg, op.Start, op.End, op.Err, len(op.Msg))
+				fmt.Printf("  op %s arg=%d [%d..%d] err=%v msg=%d downread=%d\n", op.Op, op.Arg, op.Start, op.End, op.Err, len(op.Msg), op.DownRead)
 			}
 			fmt.Printf("  handler: entered=%d recv=%d recvend=%v senderrs=%v returned=%v err=%v\n", o.H.Entered, len(o.H.Recv), o.H.RecvEnd, o.H.SendErrs, o.H.Returned, o.H.ReturnErr)
 		}
